@@ -491,3 +491,52 @@ def ast_sites(repo):
     extra = [("%s.%s" % k) for k in funcs if k[0] in ("_timelex", "parserinfo", "_ymd", "parser", "_resultbase")
              and k not in MODELLED_FUNCS and k[1] not in ("__repr__", "_repr", "next")]
     return sites, missing, extra
+
+
+# ---------------------------------------------------------------- writes into argument-derived structures
+MUTATING_METHODS = {"append", "extend", "insert", "pop", "remove", "sort", "reverse", "clear", "update", "setdefault",
+                    "popitem", "add", "discard", "__setitem__", "__delitem__"}
+
+
+def ast_mutation_sites(repo):
+    """every place in the functions reachable from parser.parse that WRITES into a structure it did not create locally as a
+    fresh literal in the same statement: subscript / attribute stores, `del`, mutating method calls.  Reported as
+    `Class.func:kind:source`.  The token list `l` of `_parse` (the return value of `_timelex.split`) is the interesting one:
+    a write into it is where aliasing (a cache, a shared default) would leak state from one call into the next."""
+    import ast, collections
+    path = os.path.join(repo, "src", "dateutil", "parser", "_parser.py")
+    tree = ast.parse(open(path).read())
+    funcs = {}
+    for node in tree.body:
+        if isinstance(node, ast.ClassDef):
+            for n in node.body:
+                if isinstance(n, ast.FunctionDef):
+                    funcs[(node.name, n.name)] = n
+        elif isinstance(node, ast.FunctionDef):
+            funcs[(None, node.name)] = node
+    sites = collections.Counter()
+    for key in MODELLED_FUNCS:
+        fn = funcs.get(key)
+        if fn is None:
+            continue
+        for n in ast.walk(fn):
+            tgts = []
+            if isinstance(n, ast.Assign):
+                tgts = n.targets
+            elif isinstance(n, (ast.AugAssign, ast.AnnAssign)):
+                tgts = [n.target]
+            elif isinstance(n, ast.Delete):
+                tgts = n.targets
+            for t in tgts:
+                for e in (t.elts if isinstance(t, (ast.Tuple, ast.List)) else [t]):
+                    if isinstance(e, ast.Subscript):
+                        sites["%s.%s:subscript-store:%s" % (key[0] or "", key[1], ast.unparse(n)[:120])] += 1
+            if isinstance(n, ast.Call) and isinstance(n.func, ast.Attribute) and n.func.attr in MUTATING_METHODS:
+                sites["%s.%s:method:%s" % (key[0] or "", key[1], ast.unparse(n)[:120])] += 1
+    # class-level / module-level mutable state of the anchored classes (a memo dict would show here)
+    for node in tree.body:
+        if isinstance(node, ast.ClassDef) and node.name in ("_timelex", "parserinfo", "_ymd", "parser", "_resultbase"):
+            for n in node.body:
+                if isinstance(n, ast.Assign) and isinstance(n.value, (ast.Dict, ast.List, ast.Set, ast.Call, ast.DictComp, ast.ListComp)):
+                    sites["%s:class-level-mutable:%s" % (node.name, ast.unparse(n)[:120])] += 1
+    return sites
